@@ -367,7 +367,11 @@ class SimTorProcess(object):
         if self.run.crash_mode == 1:
             self.do_exit(code=1 + self.sim.ch.draw(2, 'exitcode'))
         else:
-            self.do_exit(sig=[11, 9, 6][self.sim.ch.draw(3, 'exitsig')])
+            # named signals, and numbers without a name in Python's signal.Signals (glibc-reserved 33, real-time 35 / 63)
+            sig = [11, 9, 6, 35, 33, 63][self.sim.ch.draw(6, 'exitsig')]
+            if sig > 31:
+                self.sim.probe('killed-by-unnamed-signal-number')
+            self.do_exit(sig=sig)
 
     def exit_on_term(self):
         if self.run.term_exit_signal:
